@@ -19,7 +19,8 @@ NAMES = ["alpha", "beta", "gamma", "delta", "eps", "zeta", "eta", "theta", "iota
 
 
 class Ctx:
-    def __init__(self, rng, docs=True, spell=True):
+    def __init__(self, rng, docs=True, spell=True, styles=False):
+        self.styles = styles
         self.rng = rng
         self.n = 0
         self.docs = docs
@@ -221,7 +222,8 @@ def stmt_unit(k, name):
 
 class Out:
     def __init__(self):
-        self.events = []   # (stmt term or None, text)
+        self.events = []   # (stmt term or None, text or None)
+        self.style_counts = {}
 
     def emit(self, term, text):
         self.events.append((term, text))
@@ -229,6 +231,42 @@ class Out:
     def docs(self, lines, ind):
         for d in lines:
             self.emit(f"SDoc {coq_str(d)}", f"{ind}!!{d}")
+
+    def entity(self, cx, term, text, docs, ind):
+        """a statement that creates an entity, with its documentation in one of the four marker styles
+        (FORD's defaults: !! after, !> before, !* block after, !| block before); the reader delivers
+        the documentation after the statement in every style, so the statement-kind sequence is the same"""
+        style = cx.rng.choice(["post", "post", "pre", "altpost", "altpre", "inline"]) if (cx.styles and docs) else "post"
+        i2 = ind + "  "
+        self.style_counts[style] = self.style_counts.get(style, 0) + 1
+        if style == "pre":
+            for d in docs:
+                self.emit(None, f"{ind}!>{d}")
+            if cx.rng.random() < 0.3:
+                self.emit(None, "")
+            self.emit(term, text)
+        elif style == "altpre":
+            for i, d in enumerate(docs):
+                self.emit(None, f"{ind}!|{d}" if i == 0 else f"{ind}!{d}")
+            if cx.rng.random() < 0.3:
+                self.emit(None, "")
+            self.emit(term, text)
+        elif style == "altpost":
+            self.emit(term, text)
+            for i, d in enumerate(docs):
+                self.emit(None, f"{i2}!*{d}" if i == 0 else f"{i2}!{d}")
+            self.emit(None, "")     # a blank line ends the block
+        elif style == "inline":
+            self.emit(term, f"{text} !!{docs[0]}")
+            for d in docs[1:]:
+                self.emit(None, f"{i2}!!{d}")
+        else:
+            self.emit(term, text)
+            for d in docs:
+                self.emit(f"SDoc {coq_str(d)}", f"{i2}!!{d}")
+            return
+        for d in docs:
+            self.events.append((f"SDoc {coq_str(d)}", None))
 
 
 def end_line(cx, k, name):
@@ -285,24 +323,24 @@ def render_var_decl(cx, v, ind):
 def render_leaf(cx, out, node, ind):
     l = node["l"]
     if l == "LVariable":
-        out.emit(f"SLeaf LVariable [{coq_str(node['name'])}]", render_var_decl(cx, node, ind))
+        term, text = f"SLeaf LVariable [{coq_str(node['name'])}]", render_var_decl(cx, node, ind)
     elif l == "LUse":
-        out.emit(f"SLeaf LUse [{coq_str(node['name'])}]", f"{ind}{kw(cx, 'use')} {node['name']}")
+        term, text = f"SLeaf LUse [{coq_str(node['name'])}]", f"{ind}{kw(cx, 'use')} {node['name']}"
     elif l == "LCommon":
-        out.emit(f"SLeaf LCommon [{coq_str(node['name'])}]",
-                 f"{ind}{kw(cx, 'common')} /{node['name']}/ {', '.join(node['decl']['vars'])}")
+        term, text = (f"SLeaf LCommon [{coq_str(node['name'])}]",
+                      f"{ind}{kw(cx, 'common')} /{node['name']}/ {', '.join(node['decl']['vars'])}")
     elif l == "LNamelist":
-        out.emit(f"SLeaf LNamelist [{coq_str(node['name'])}]",
-                 f"{ind}{kw(cx, 'namelist')} /{node['name']}/ {', '.join(node['decl']['vars'])}")
+        term, text = (f"SLeaf LNamelist [{coq_str(node['name'])}]",
+                      f"{ind}{kw(cx, 'namelist')} /{node['name']}/ {', '.join(node['decl']['vars'])}")
     elif l == "LBoundProc":
-        out.emit(f"SLeaf LBoundProc [{coq_str(node['name'])}]",
-                 f"{ind}{kw(cx, 'procedure')}, nopass :: {node['name']} => {node['decl']['target']}")
+        term, text = (f"SLeaf LBoundProc [{coq_str(node['name'])}]",
+                      f"{ind}{kw(cx, 'procedure')}, nopass :: {node['name']} => {node['decl']['target']}")
     elif l == "LFinal":
-        out.emit(f"SLeaf LFinal [{coq_str(node['name'])}]", f"{ind}{kw(cx, 'final')} :: {node['name']}")
-    elif l == "LModProcRef":
-        out.emit(f"SLeaf LModProcRef [{coq_str(node['name'])}]",
-                 f"{ind}{cx.rng.choice(['module procedure', 'module procedure ::', 'MODULE PROCEDURE']) if cx.spell else 'module procedure'} {node['name']}")
-    out.docs(node["docs"], ind + "  ")
+        term, text = f"SLeaf LFinal [{coq_str(node['name'])}]", f"{ind}{kw(cx, 'final')} :: {node['name']}"
+    else:
+        mp = cx.rng.choice(['module procedure', 'module procedure ::', 'MODULE PROCEDURE']) if cx.spell else 'module procedure'
+        term, text = f"SLeaf LModProcRef [{coq_str(node['name'])}]", f"{ind}{mp} {node['name']}"
+    out.entity(cx, term, text, node["docs"], ind)
 
 
 def first_line(cx, node):
@@ -359,8 +397,7 @@ def render_container(cx, out, node, ind=""):
     rng = cx.rng
     k = node["k"]
     i2 = ind + "  "
-    out.emit(stmt_first(node), ind + first_line(cx, node))
-    out.docs(node["docs"], i2)
+    out.entity(cx, stmt_first(node), ind + first_line(cx, node), node["docs"], ind)
     leaves_decl = [c for c in node["children"] if "l" in c]
     conts = [c for c in node["children"] if "k" in c]
     spec_conts = [c for c in conts if c["k"] in ("KType", "KEnum", "KInterface")]
